@@ -144,8 +144,9 @@ class ExactAlgorithmCplex(ExactAlgorithmBase, PairwiseBasedAlgorithm):
                     new_dataset: Dataset = dataset.sub_problem_from_ids(scc_i_set, keep_all_rankings=True)
                     rankings: List[Ranking] = self._compute_consensus_rankings_with_optim(new_dataset, scoring_scheme,
                                                                                           False, True)
-                    for bucket in rankings[0]:
-                        ranking.append(bucket)
+                    # the elements of the sub-problem may have another type than the ones of the dataset
+                    ranking.extend(ExactAlgorithmCplex.buckets_with_elements_of(
+                        rankings[0], {id_elements[id_elem] for id_elem in scc_i_set}))
             return [Ranking(ranking)]
 
         # else, no more recursive calls to do, single problem to solve
